@@ -89,8 +89,13 @@ def _payload(job: Job):
     }
 
 
+DEADLINE = None     # absolute time after which no further condition is started (set by Ctx from the tier's wall budget); unstarted ones are inconclusive
+
+
 def _run_one(job: Job, scratch: str) -> Result:
     t0 = time.time()
+    if DEADLINE is not None and t0 > DEADLINE and not job.witness:
+        return Result(job, "inconclusive", "not started: the tier's wall-time budget was used up")
     res = _call_worker("analyze", _payload(job), job.cond_timeout * 3 + 60, scratch)
     wall = time.time() - t0
     if "worker_error" in res:
